@@ -29,8 +29,9 @@ import optree
 VIOLATIONS = []
 EVALS = [0]
 def violation(msg):
-    if len(VIOLATIONS) < 20:
-        VIOLATIONS.append(str(msg).replace('\n', ' ')[:500])
+    msg = str(msg).replace('\n', ' ')[:500]
+    if len(VIOLATIONS) < 20 and msg not in VIOLATIONS:
+        VIOLATIONS.append(msg)
 def finish():
     print('RESULT: ' + json.dumps({'evaluations': EVALS[0], 'violations': len(VIOLATIONS)}), flush=True)
     for v in VIOLATIONS:
@@ -420,16 +421,16 @@ def _script(params: dict, body: str) -> str:
 def cases(tier: str, seed: int):
     quick = tier == 'quick'
     out = []
-    wd = 60.0 if quick else 240.0
-    out.append(('stress', {'readers': 4 if quick else 8, 'registrars': 2 if quick else 4, 'iters': 6 if quick else 40,
-                           'reg_iters': 150 if quick else 1500, 'watchdog': wd, 'seed': seed}, _STRESS_BODY))
+    wd = 75.0 if quick else 850.0
+    out.append(('stress', {'readers': 4 if quick else 8, 'registrars': 2 if quick else 4, 'iters': 400 if quick else 10000,
+                           'reg_iters': 10000 if quick else 250000, 'watchdog': wd, 'seed': seed}, _STRESS_BODY))
     for hook in ('showwarning', 'meta_repr', 'meta_getattribute'):
         for two in (False, True):
             out.append((f'reentry/{hook}/{"two_threads" if two else "same_thread"}',
                         {'hook': hook, 'two_threads': two, 'watchdog': 30.0}, _REENTRY_BODY))
-    out.append(('once', {'threads': 4 if quick else 8, 'rounds': 60 if quick else 600, 'watchdog': wd}, _ONCE_BODY))
+    out.append(('once', {'threads': 4 if quick else 8, 'rounds': 600 if quick else 6000, 'watchdog': wd}, _ONCE_BODY))
     for variant in ('plain', 'predicate', 'custom_yield'):
-        out.append((f'iterator/{variant}', {'threads': 4 if quick else 8, 'leaves': 20000 if quick else 200000,
+        out.append((f'iterator/{variant}', {'threads': 4 if quick else 8, 'leaves': 100000 if quick else 1000000,
                                             'variant': variant, 'watchdog': wd}, _ITER_BODY))
     return [(cid, p, _script(p, body)) for cid, p, body in out]
 
@@ -464,8 +465,8 @@ def run(tier: str, seed: int) -> BoundedReport:
         r = U.run_child(code, timeout=p['watchdog'])
         return c, r
 
-    # the stress scenario wants the cores for itself: run it first alone, the small ones in a pool afterwards
-    results = [run_one(cs[0])] + U.pmap(run_one, cs[1:], workers=4)
+    # every scenario is bound by its own GIL: run them side by side (the long stress scenario is submitted first)
+    results = U.pmap(run_one, cs, workers=6)
     evals = 0
     samples = []
     for (cid, p, code), r in results:
